@@ -1179,10 +1179,11 @@ def btree_node_part(rep, thorough, label, light=False):
 # Slots.tla: value-table slot allocation (C06: storage released and reused; C14: every slot live once or free once),
 # transcribed; the replay compares ADDRESSES
 
-SL_TAGS = ["pop", "extend", "insert", "replace", "move", "remove", "grow_chain", "trim_chain", "same_chain", "crash", "crash_replays"]
+SL_TAGS = ["pop", "extend", "insert", "replace", "move", "remove", "grow_chain", "trim_chain", "same_chain", "crash", "crash_replays",
+           "crash_loses_unsynced"]
 
 
-def slots_part(rep, thorough, label):
+def slots_part(rep, thorough, label, rc=True):
     """Design check of Slots.tla (exhaustive, small constants, necessity configs), then behaviours with the part counts
     of real values replayed with fill marks, free-list order and the slots of every chain compared."""
     res = vcore.tlc_check("Slots.tla", os.path.join(vcore.SPEC, "MC_Slots.cfg"), timeout=3000)
@@ -1197,7 +1198,7 @@ def slots_part(rep, thorough, label):
         if r["ok"]:
             raise ToolError("Slots.tla: the wrong variant %s passes the invariants: vacuous" % cfg)
         log("[tlc] necessity %s: %s violated after %d states, as required" % (cfg[:-4], r["violated"], r["distinct"]))
-    behs, gen, _ = vcore.tlc_simulate("Slots.tla", os.path.join(vcore.SPEC, "GEN_Slots.cfg"), 160 if thorough else 36, 121, SEED + 23)
+    behs, gen, _ = vcore.tlc_simulate("Slots.tla", os.path.join(vcore.SPEC, "GEN_Slots.cfg"), 160 if thorough else 22, 121, SEED + 23)
     rep.transitions += gen
     covered = set()
     for b in behs:
@@ -1225,7 +1226,8 @@ def slots_part(rep, thorough, label):
     rep.extra["compressed_chain_heads_seen"] = heads
     if full < 100 or heads < 20:
         raise ToolError("slots-replay compared %d complete layouts and met %d compressed chains: vacuous" % (full, heads))
-    slots_rc_part(rep, thorough, label)
+    if rc:
+        slots_rc_part(rep, thorough, label)
 
 
 def slots_rc_part(rep, thorough, label):
@@ -1238,12 +1240,12 @@ def slots_rc_part(rep, thorough, label):
                       {"kind": "model", "cfg": "MC_Slots_rc.cfg", "tlc_tail": res["out"][-5000:]})
     else:
         log("[tlc] MC_Slots_rc: %d distinct states: ok" % res["distinct"])
-    behs, gen, _ = vcore.tlc_simulate("Slots.tla", os.path.join(vcore.SPEC, "GEN_Slots_rc.cfg"), 80 if thorough else 20, 121, SEED + 29)
+    behs, gen, _ = vcore.tlc_simulate("Slots.tla", os.path.join(vcore.SPEC, "GEN_Slots_rc.cfg"), 80 if thorough else 12, 121, SEED + 29)
     rep.transitions += gen
     covered = set()
     for b in behs:
         covered.update(b["tags"])
-    missing = [t for t in ("inc_ref", "dec_ref", "remove", "pop", "extend", "crash_replays") if t not in covered]
+    missing = [t for t in ("inc_ref", "dec_ref", "remove", "pop", "extend", "crash_replays", "crash_loses_unsynced") if t not in covered]
     if missing:
         raise ToolError("Slots behaviours of the counting column do not take the transitions %s: vacuous" % missing)
     results = generic_replay(rep, "slots-replay", behs, {"variant": "rc"}, "%s_slrc" % label, "slots-replay")
@@ -1748,7 +1750,7 @@ def c06(tier):
         record_and_validate(rep, cols, 3, 6, 900 if thorough else 450, SEED * 83 + j, crash=1, label="c06m%d" % j, dumps=True)
     # storage of an overwritten / removed value is released and reused (Slots.tla): addresses predicted by the
     # specification, plain and compressed chains
-    slots_part(rep, thorough, "c06")
+    slots_part(rep, thorough, "c06", rc=thorough)
     rep.evaluations += written
     rep.extra["values_written"] = written
     rep.sample({"boundary_lengths_first": "0,1,2,3,4,5, then cap-1/cap/cap+1 of each of 255 tiers, multipart boundaries, 1048577, 3000001"})
